@@ -74,8 +74,40 @@ ANCHORS = [
     "gemseo.algos.linear_solvers.scipy_linalg.scipy_linalg:ScipyLinalgAlgos._run",
 ]
 MIN_COUNTERS = {
-    "quick": {"blocks_judged": 1, "requests_judged": 1},
-    "thorough": {"blocks_judged": 1, "requests_judged": 1},
+    "quick": {
+        "blocks_judged": 13900, "directed_requests": 129, "exhaustive_subset_requests": 730,
+        "flavour:MDAChain[GaussSeidel,chain_linearize]": 190, "flavour:MDAChain[GaussSeidel]": 170,
+        "flavour:MDAChain[Jacobi,chain_linearize]": 230, "flavour:MDAChain[Jacobi]": 190,
+        "flavour:MDAChain[NewtonRaphson,chain_linearize]": 160, "flavour:MDAChain[NewtonRaphson]": 180,
+        "flavour:MDAGSNewton": 140, "flavour:MDAGaussSeidel": 230, "flavour:MDAJacobi": 200,
+        "flavour:MDANewtonRaphson": 280, "jac_kind:dense": 1000, "jac_kind:operator": 490,
+        "jac_kind:sparse": 440, "matrix_type:linear_operator": 700, "matrix_type:matrix": 720,
+        "matrix_type:matrix+lu": 580, "mode:adjoint": 660, "mode:auto": 680, "mode:direct": 670,
+        "reference_self_tests": 16, "requests_judged": 2000, "requests_judged_after_a_previous_request": 730,
+        "requests_judged_compute_all_jacobians": 130, "requests_judged_with_state_disciplines": 520,
+        "requests_that_linearized_disciplines": 1900, "sequences_of_length_1": 180,
+        "sequences_of_length_2": 160, "sequences_of_length_3": 160, "sequences_of_length_4": 150,
+        "solver_ok:BICG": 180, "solver_ok:BICGSTAB": 190, "solver_ok:CG": 14, "solver_ok:CGS": 180,
+        "solver_ok:DEFAULT": 550, "solver_ok:GCROT": 200, "solver_ok:GMRES": 310, "solver_ok:LGMRES": 220,
+        "solver_ok:TFQMR": 140, "systems_with_all_subsets_enumerated": 22
+    },
+    "thorough": {
+        "blocks_judged": 83900, "directed_requests": 129, "exhaustive_subset_requests": 3000,
+        "flavour:MDAChain[GaussSeidel,chain_linearize]": 1100, "flavour:MDAChain[GaussSeidel]": 1000,
+        "flavour:MDAChain[Jacobi,chain_linearize]": 1300, "flavour:MDAChain[Jacobi]": 1100,
+        "flavour:MDAChain[NewtonRaphson,chain_linearize]": 1000, "flavour:MDAChain[NewtonRaphson]": 1000,
+        "flavour:MDAGSNewton": 870, "flavour:MDAGaussSeidel": 1400, "flavour:MDAJacobi": 1200,
+        "flavour:MDANewtonRaphson": 1700, "jac_kind:dense": 6400, "jac_kind:operator": 2900,
+        "jac_kind:sparse": 2600, "matrix_type:linear_operator": 4200, "matrix_type:matrix": 4300,
+        "matrix_type:matrix+lu": 3500, "mode:adjoint": 3900, "mode:auto": 4100, "mode:direct": 4000,
+        "reference_self_tests": 16, "requests_judged": 12100, "requests_judged_after_a_previous_request": 4400,
+        "requests_judged_compute_all_jacobians": 790, "requests_judged_with_state_disciplines": 3100,
+        "requests_that_linearized_disciplines": 11400, "sequences_of_length_1": 1000,
+        "sequences_of_length_2": 960, "sequences_of_length_3": 990, "sequences_of_length_4": 950,
+        "solver_ok:BICG": 1000, "solver_ok:BICGSTAB": 1100, "solver_ok:CG": 84, "solver_ok:CGS": 1000,
+        "solver_ok:DEFAULT": 3300, "solver_ok:GCROT": 1200, "solver_ok:GMRES": 1800, "solver_ok:LGMRES": 1300,
+        "solver_ok:TFQMR": 880, "systems_with_all_subsets_enumerated": 94
+    },
 }
 SHARD_TIMEOUT = {"quick": 1200, "thorough": 5400}
 
@@ -88,8 +120,8 @@ COND_MAX = 1e3
 
 def shards(tier, seed):
     n = 16
-    per = {"quick": 100, "thorough": 1000}[tier]
-    exh = {"quick": 3, "thorough": 20}[tier]
+    per = {"quick": 100, "thorough": 700}[tier]
+    exh = {"quick": 3, "thorough": 14}[tier]
     return [{"seed": subseed(seed, PID, i), "n_seq": per, "n_exh": exh,
              "budget_s": {"quick": 900, "thorough": 4500}[tier]} for i in range(n)]
 
@@ -272,13 +304,17 @@ def classify_exception(S, exc, I, O, cfg):
     return "violation", f"C07:exception:{name}:{mod}.{func}"
 
 
-def classify_mismatch(S, o, I, O, cfg, step):
+def classify_mismatch(S, o, w, blk, point, I, O, cfg, step):
     own = S.owner[o]
     if S.has_states:
-        state_owners = [i for i, d in enumerate(S.discs) if d.get("state")]
-        chain = cfg["kw"].get("chain_linearize", False)
-        if own in state_owners or (chain and any(S.reach[k, own] for k in state_owners)):
+        # mechanism test: the observed block equals the closed form in which dF/dw.dw/dx is lost
+        wrong, _ = S.total_derivatives(point, of=[o], wrt=[w], drop_state_partials_of_functions=True)
+        model = wrong[o][w]
+        if float(np.max(np.abs(blk - model))) <= TOL * (1 + float(np.max(np.abs(model)))):
             return "C07:assembly:function-partials-wrt-state-variables-dropped"
+        state_owners = [i for i, d in enumerate(S.discs) if d.get("state")]
+        if cfg["kw"].get("chain_linearize", False) and any(S.reach[k, own] for k in state_owners):
+            return "C07:assembly:function-partials-wrt-state-variables-dropped:propagated-by-chain_linearize"
     if S.request_crosses_strong_link(I, O):
         return "C07:traverse:strong-coupling-read-by-another-strong-group:wrong-value"
     feat = step["mode"] + ":" + step["matrix_type"] + ("+lu" if cfg["lu"] else "")
@@ -418,7 +454,8 @@ def run_case(case, rep, sample=False):
         if worst is not None:
             _, o, w, blk, ex, err, bound = worst
             rep.count("requests_with_a_wrong_block")
-            rep.violation(classify_mismatch(S, o, I, O, cfg, step), "block equals the implicit-function closed form",
+            rep.violation(classify_mismatch(S, o, w, blk, point, I, O, cfg, step),
+                          "block equals the implicit-function closed form",
                           failing, observed={"block": [o, w], "value": blk, "max_abs_error": err},
                           expected={"value": ex, "bound": bound, "inputs": I, "outputs": O})
         if sample and k == 0:
